@@ -133,3 +133,17 @@ pub fn spawn_final<F: FnOnce(&Ctx) + Send + 'static>(sim: &Arc<Sim>, f: F) {
     });
 }
 pub const FINAL_OP: u32 = 900_000;
+
+/// Objects containing shim cells must outlive the run: a freed cell whose address is reused by a
+/// new one would get the same location id, and whether that happens depends on allocator state
+/// left behind by earlier runs of the process.
+#[derive(Clone, Default)]
+pub struct Keep(Arc<Mutex<Vec<Box<dyn std::any::Any + Send>>>>);
+impl Keep {
+    pub fn new() -> Keep {
+        Keep::default()
+    }
+    pub fn push<T: std::any::Any + Send>(&self, x: T) {
+        self.0.lock().unwrap().push(Box::new(x));
+    }
+}
